@@ -55,6 +55,7 @@ import (
 	"google.golang.org/grpc"
 	"google.golang.org/grpc/codes"
 	"google.golang.org/grpc/status"
+	"google.golang.org/protobuf/proto"
 	"rsc.io/binaryregexp"
 )
 
@@ -201,10 +202,13 @@ func (s *server) CreateTable(ctx context.Context, req *btapb.CreateTableRequest)
 
 	s.mu.Unlock()
 
+	// The response is marshalled after this handler returns: it must not alias the stored table definition, which a
+	// later ModifyColumnFamilies changes in place.
+	stored := proto.Clone(req.GetTable()).(*btapb.Table)
 	ct := &btapb.Table{
 		Name:           tbl,
-		ColumnFamilies: req.GetTable().GetColumnFamilies(),
-		Granularity:    req.GetTable().GetGranularity(),
+		ColumnFamilies: stored.GetColumnFamilies(),
+		Granularity:    stored.GetGranularity(),
 	}
 	if ct.Granularity == 0 {
 		ct.Granularity = btapb.Table_MILLIS
@@ -235,9 +239,11 @@ func (s *server) GetTable(ctx context.Context, req *btapb.GetTableRequest) (*bta
 		return nil, status.Errorf(codes.NotFound, "table %q not found", req.Name)
 	}
 
-	s.mu.Lock()
-	defer s.mu.Unlock()
-	return tbl.def, nil
+	// Copy the definition under the table lock: the response is marshalled after this handler returns, while a
+	// concurrent ModifyColumnFamilies may be changing the family map.
+	tbl.mu.RLock()
+	defer tbl.mu.RUnlock()
+	return proto.Clone(tbl.def).(*btapb.Table), nil
 }
 
 func (s *server) DeleteTable(ctx context.Context, req *btapb.DeleteTableRequest) (*emptypb.Empty, error) {
@@ -338,7 +344,7 @@ func (s *server) ModifyColumnFamilies(ctx context.Context, req *btapb.ModifyColu
 	}
 
 	s.storage.SetTableMeta(tbl.def)
-	return tbl.def, nil
+	return proto.Clone(tbl.def).(*btapb.Table), nil
 }
 
 func (s *server) DropRowRange(ctx context.Context, req *btapb.DropRowRangeRequest) (*emptypb.Empty, error) {
